@@ -127,4 +127,37 @@ theorem setChar_obs (l : LayerM) (x y : Int) (c : Cell) : (l.setChar x y c).obs 
         · simp only [hy', if_false, and_false]
           rw [rowsGet_growTo_rows]; rfl
 
+def LObs.restoreChar (a : LObs) (x y : Int) (c : Cell) : LObs :=
+  (a.1, a.2.1, a.2.2.1, fun x' y' => if a.inside x y ∧ x' = x.toNat ∧ y' = y.toNat then c else a.cells x' y')
+
+/-- `restore_char` writes whatever the lock state is -/
+theorem restoreChar_obs (l : LayerM) (x y : Int) (c : Cell) : (l.restoreChar x y c).obs = l.obs.restoreChar x y c := by
+  have hin : l.obs.inside x y = l.inside x y := rfl
+  unfold LayerM.restoreChar LObs.restoreChar
+  rw [hin]
+  split
+  · rename_i h1
+    have : l.inside x y = false := by simpa using h1
+    rw [this]
+    show l.obs = (l.w, l.h, l.props, fun x' y' => if false = true ∧ x' = x.toNat ∧ y' = y.toNat then c else rowsGet l.lines x' y')
+    simp [LayerM.obs]
+  · rename_i h1
+    have h1' : l.inside x y = true := by simpa using h1
+    rw [h1']
+    have hy : y.toNat < (growTo l.lines (y.toNat + 1) (List.replicate l.w.toNat Cell.invisible)).length := by
+      simp [growTo]; omega
+    show (l.w, l.h, l.props, rowsGet ((growTo l.lines (y.toNat + 1) (List.replicate l.w.toNat Cell.invisible)).set y.toNat _)) = (l.w, l.h, l.props, _)
+    congr 3
+    funext x' y'
+    rw [rowsGet_set _ _ _ _ _ hy, getD_setCell]
+    by_cases hy' : y' = y.toNat
+    · subst hy'
+      by_cases hx' : x' = x.toNat
+      · simp [hx']
+      · simp only [hx', if_false, if_true, and_false, false_and, and_true]
+        show rowsGet (growTo l.lines (y.toNat + 1) (List.replicate l.w.toNat Cell.invisible)) x' y.toNat = _
+        rw [rowsGet_growTo_rows]; rfl
+    · simp only [hy', if_false, and_false]
+      rw [rowsGet_growTo_rows]; rfl
+
 end IcyVerif.Undo
